@@ -289,7 +289,24 @@ func TestC18(t *testing.T) {
 		rec.Rapid(t, "see", evid.Pick(80000, 20000000), func(t *rapid.T) {
 			var p refchess.Pos
 			label := ""
-			switch gen.Draw(t, 0, 3, "family") {
+			switch gen.Draw(t, 0, 5, "family") {
+			case 4, 5: // en-passant captures with line pieces around (the captured pawn leaves a file and a rank)
+				if q, m, name, ok := gen.EPMotif(t); ok {
+					p, label = q.Make(m), name
+					for i := gen.Draw(t, 0, 3, "liners"); i > 0; i-- {
+						sq := gen.Draw(t, 0, 63, "lsq")
+						if p.Sq[sq] == 0 {
+							k := []int8{refchess.Rook, refchess.Queen, refchess.Bishop}[gen.Draw(t, 0, 2, "lk")]
+							if gen.Chance(t, 1, 2, "lcol") {
+								k = -k
+							}
+							p.Sq[sq] = k
+						}
+					}
+					if p.Valid() != nil {
+						label = ""
+					}
+				}
 			case 0, 1:
 				if q, ok := gen.BatteryMotif(t); ok {
 					p, label = q, "battery"
